@@ -315,6 +315,9 @@ def _find_path_recursive(
     if start is end:
         return [(1, 0, end)]
 
+    if start.dimension is not end.dimension:
+        return []
+
     if start in visited:
         return []
     else:
